@@ -29,6 +29,15 @@ files = glob.glob('/repo/zz_*_verif.go') + glob.glob('/repo/*/zz_*_verif.go')
 for f in files:
     nk += len(re.findall(r'^//@ (contract|purelemma|iface) ', open(f).read(), re.M))
 body = body.replace('@@NKEYS@@', str(nk)).replace('@@NFILES@@', str(len(files)))
+def level_notes():
+    m = json.load(open(os.path.join(V, 'MANIFEST.json')))
+    out = []
+    for c in m['checks']:
+        out.append(f"* **{c['property_id']}** - {c['level_note'].split(' Trusted: the rvc generator')[0]}")
+    for n in m.get('not_applicable', []):
+        out.append(f"* **{n['property_id']}** - NOT APPLICABLE: {n['reason']}")
+    return '\n'.join(out)
+body = body.replace('@@LEVELNOTES@@', level_notes())
 body = body.replace('@@PROPTABLE@@', prop_table()).replace('@@SEEDTABLE@@', seed_table()).replace('@@FINDINGS@@', findings_table())
 d = open(os.path.join(V, 'DESIGN.md')).read()
 d = re.sub(r'<!-- ASBUILT:BEGIN -->.*?<!-- ASBUILT:END -->', lambda m: '<!-- ASBUILT:BEGIN -->\n' + body + '\n<!-- ASBUILT:END -->', d, flags=re.S)
